@@ -182,7 +182,16 @@ func init() {
 
 var totalRe = regexp.MustCompile(`^Total: (-?\d+)\nShould: (-?\d+)\nDiff: ([-+]?\d+)\n\(In (\d+) records?\)\n$`)
 
+var evalTotalConfig string
+
 func init() {
+	// eval-total-cfg: the same evaluation with a configuration file whose settings concern only what klog WRITES
+	// (defaults for new records, rounding, notation): none of them may change what `klog total` reports
+	register("eval-total-cfg", func(a []string) string {
+		evalTotalConfig = "default_should_total = 7h30m!\ndefault_rounding = 15m\ndate_format = YYYY/MM/DD\ntime_convention = 12h\n"
+		defer func() { evalTotalConfig = "" }()
+		return handlers["eval-total"](a)
+	})
 	register("eval-total", func(a []string) string {
 		y, _ := strconv.Atoi(a[0])
 		mo, _ := strconv.Atoi(a[1])
@@ -198,7 +207,7 @@ func init() {
 		if a[5] == "1" {
 			args = append(args, "--now")
 		}
-		e := &cliEnv{Home: dir, Sticky: true, Clock: []gotime.Time{gotime.Date(y, gotime.Month(mo), d, h, mi, 30, 0, gotime.Local)}}
+		e := &cliEnv{Home: dir, Sticky: true, Config: evalTotalConfig, Clock: []gotime.Time{gotime.Date(y, gotime.Month(mo), d, h, mi, 30, 0, gotime.Local)}}
 		code, out, errText := runSafely(e, append(args, f)...)
 		if code == -1 {
 			return "crash"
